@@ -90,6 +90,20 @@ void checkMap(Ctx& ctx, const std::vector<int>& cfg)
 	auto w2 = mapc::writeMap(m2);
 	ctx.transition();
 	if (w2 != w1) { bad("write-not-byte-stable", ""); return; }
+	// a rejected read in between must not leak into the next one: cut the input inside its last consumed field, expect a
+	// refusal, read the full input again and compare every field with the first result
+	{
+		std::size_t consumedLen = bytes.size() - r.trailing.size();
+		std::size_t cut = consumedLen > 2 ? consumedLen - 2 : 0;
+		std::vector<uint8_t> shortBytes(bytes.begin(), bytes.begin() + cut);
+		Map junk, again;
+		auto oc = mc::guarded([&] { junk = mapc::readMap(shortBytes); });
+		auto oa = mc::guarded([&] { again = mapc::readMap(bytes); });
+		ctx.transition(2);
+		if (oc.cls == 'R') { bad("truncated-input-accepted", "cut at " + std::to_string(cut)); return; }
+		if (oa.cls != 'R' || mapc::dump(again) != mapc::dump(m)) { bad("read-after-a-rejected-read-differs", oa.what); return; }
+		ctx.count("reads/after-a-rejected-read");
+	}
 	// the file-name overloads are the same reader and writer behind a FileReader / FileWriter
 	{
 		std::string dir = ctx.scratch(), in = dir + "/in.map", out = dir + "/out.map";
